@@ -237,6 +237,11 @@ func vfH_C16_update() {
 	}
 	c := env.newCmd(protocol.COMMAND_LOCK, key, vfLockId(5))
 	c.Expried, c.ExpriedFlag, c.Count, c.Rcount = 100, eflag, 0, 0
+	// the hold may use Rcount as a priority (timeout flag 0x0010), which the log records do not carry
+	prio := vfBool("priority")
+	if prio {
+		c.TimeoutFlag, c.Rcount = protocol.TIMEOUT_FLAG_RCOUNT_IS_PRIORITY, 2
+	}
 	env.lock(0, c)
 	vfDrainAof(env.db)
 	// one second later the holder changes its terms
@@ -244,6 +249,9 @@ func vfH_C16_update() {
 	u := env.newCmd(protocol.COMMAND_LOCK, key, vfLockId(5))
 	u.Flag = protocol.LOCK_FLAG_UPDATE_WHEN_LOCKED
 	u.Expried, u.ExpriedFlag = uint16(200+vfChoice("e2", 2)*100), eflag
+	if prio {
+		u.TimeoutFlag, u.Rcount = protocol.TIMEOUT_FLAG_RCOUNT_IS_PRIORITY, 2
+	}
 	if vfBool("count2") {
 		u.Count = 3
 	}
